@@ -16,6 +16,8 @@ type StaticResult struct {
 func runStatic(prog *Prog, sc StaticCheck) *StaticResult {
 	res := &StaticResult{Name: sc.Name, Kind: sc.Kind}
 	switch sc.Kind {
+	case "codec-table":
+		return runCodecTable(prog, sc)
 	default:
 		res.Obligations = 1
 		res.Failures = append(res.Failures, "unknown static check kind "+sc.Kind)
